@@ -57,6 +57,7 @@ const K_READ: W = 5;
 const K_CONV: W = 7;
 const K_ALLOC: W = 8;
 const K_PAIR: W = 9;
+const K_COPY: W = 14;
 
 fn case_table(c: &mut Cur) -> Result<Vec<W>, BadCase> {
     let code = c.next()?;
@@ -777,6 +778,49 @@ fn case_pair(c: &mut Cur) -> Result<Vec<W>, BadCase> {
     Ok(out)
 }
 
+/// Kind 14: a file copy. [shp bytes] -> the shapes are read with `ShapeReader::new(..).read()` (generic) and,
+/// the null shapes left out, written again with a `ShapeWriter` (with index) that is then dropped:
+/// [0, n results, results.., .shp destination, .shx destination] | [1, error of the read].
+fn case_copy(c: &mut Cur) -> Result<Vec<W>, BadCase> {
+    let shp_in = read_bytes(c)?;
+    if !c.at_end() {
+        return Err(BadCase);
+    }
+    let shp = Dest::default();
+    let shx = Dest::default();
+    let (shp2, shx2) = (shp.clone(), shx.clone());
+    let r = std::panic::catch_unwind(std::panic::AssertUnwindSafe(move || -> Result<Vec<Result<(), Error>>, Error> {
+        let shapes = ShapeReader::new(Source::new(shp_in))?.read()?;
+        let mut w = ShapeWriter::with_shx(shp2, shx2);
+        let mut results = vec![];
+        for s in &shapes {
+            if let Shape::NullShape = s {
+                continue;
+            }
+            results.push(with_concrete!(s, x => w.write_shape(x), unreachable!()));
+        }
+        drop(w);
+        Ok(results)
+    }));
+    let mut out = vec![];
+    match r {
+        Err(_) => out.push(2),
+        Ok(Err(e)) => {
+            out.push(1);
+            render_error(&e, &mut out);
+        }
+        Ok(Ok(results)) => {
+            out.extend([0, results.len() as W]);
+            for r in &results {
+                render_unit_res(r, &mut out);
+            }
+            render_dev(&shp, &mut out);
+            render_dev(&shx, &mut out);
+        }
+    }
+    Ok(out)
+}
+
 fn run_case(v: &[W]) -> Vec<W> {
     let mut c = Cur::new(v);
     let r = match c.next() {
@@ -788,6 +832,7 @@ fn run_case(v: &[W]) -> Vec<W> {
         Ok(K_CONV) => case_conv(&mut c),
         Ok(K_ALLOC) => case_alloc(&mut c),
         Ok(K_PAIR) => case_pair(&mut c),
+        Ok(K_COPY) => case_copy(&mut c),
         _ => Err(BadCase),
     };
     match r {
